@@ -451,6 +451,15 @@ func c12KRun(c *vcore.Ctx) *vcore.Violation {
 				res, _ = kRunUnshare(ctx, &kOpts{script: script, extra: extra, workdir: "/nonexistent-verif-workdir"})
 			case shape == "launch_failure":
 				e := &kExec{script: script, extra: extra, args0: "/probe/no-such-binary"}
+				if src.Bool(1, 2, "clone_fails") {
+					// the very first step fails: the descriptor meant for clone-into-cgroup is an ordinary directory
+					if d, err := os.Open(c.Dir); err == nil {
+						defer d.Close()
+						e = &kExec{script: script, extra: extra, cgroupFD: d.Fd()}
+						c.Event("clone_fails")
+						c.Fault("launch_fails_at_clone")
+					}
+				}
 				if kind == "container_rebuild" {
 					k2, err := kBuildContainer(nil, nil, nil)
 					if err != nil {
